@@ -5,6 +5,10 @@
    end of this file, Proofs/IntegEncoder.v) a whole sequence laid out the way the encoder does it
    satisfies seven of the ten stream-structure rules of the validator model Model/Stream.v (C01),
    the other three (version: C07, the two ordering patterns: C19) entering as hypotheses.
+   Those three are DISCHARGED in the last part of this file (C03_structure): for the model of
+   make_sequence + autofill (Model/IntegSeq.v: picture data units -> make_matching_sequence ->
+   data_unit_makers -> autofilled version and offsets) the validator model, with its pattern
+   automata instantiated by the C18 Matcher, accepts.
    Field validity inside the data units is covered by the differential run only (DESIGN.md section 6). *)
 From Coq Require Import ZArith List Bool.
 From VC2 Require Import Base.PyZ Gen.EncLossless Model.EncoderSeq Proofs.EncoderSeqProofs.
@@ -121,3 +125,188 @@ Proof.
   { unfold spec_ok. repeat constructor; cbn; try reflexivity; discriminate. }
   vm_compute. repeat split; reflexivity.
 Qed.
+
+(* ==========================================================================================
+   C03_structure: the three hypotheses of C03_structure_partial discharged
+   (integration C03 x C07 x C18 x C19 x C01; Model/IntegSeq.v, Proofs/IntegVersion.v, IntegPatterns.v,
+   IntegSequence.v; ADDED to this file, nothing above changed)
+   ========================================================================================== *)
+From VC2 Require Import Gen.Version Model.Regex Model.NFA Model.Matcher Model.MatchSeq Proofs.MatchSeqProofs
+  Model.IntegSeq Proofs.IntegPatterns Proofs.IntegVersion Proofs.IntegSequence.
+
+(* ---- 1. version_ok via C07 ---------------------------------------------------------------
+   to_af sh (Model/IntegSeq.v) maps a Model/Stream.v data unit to a C07 data-unit description (parse code,
+   picture / fragment numbers, fragment_slice_count, wavelet_index + a fully explicit
+   extended_transform_parameters entry; sequence headers: the profile of the Stream header and the preset
+   fields `sh` -- which Model/Stream.v abstracts to the single number h_pvmin = hdr_pvmin d sh, the largest
+   version the VALIDATOR logs for the presets (AutofillSpec.val_header_logs)).
+   The two formulations of the validator's version rule agree: Model/Stream.v `version_ok` (C01) holds iff
+   AutofillSpec `val_version_ok` (C07) holds of the mapped sequence labelled with the header's major_version.
+   Hypotheses: the first data unit is the header h0, every repeated header has its profile (C01's rule
+   headers_identical gives more), slice-bearing fragments code a non-zero count (what makes them
+   KFragData), and the pictures are codable under that label (below 3 no asymmetric transform: the
+   tp_valid part of C01's units_valid = C07's etp_codable). *)
+Theorem C03_version_rules_agree :
+  forall (d : AF.defaults) (sh : AF.seqhdr) (h0 : hdr), h_pvmin h0 = hdr_pvmin d sh ->
+  forall us : list dunit, first_hdr us = Some h0 -> Forall unit_nz us -> Forall (same_profile h0) us ->
+  Forall (tp_codable (h_major h0)) us ->
+  (version_ok us = true <-> AS.val_version_ok d (h_major h0) (map (to_af sh) us)).
+Proof. exact version_rules_agree. Qed.
+
+(* hence (C07_major_version_least): a sequence whose header carries the version autofill_major_version
+   computes (Autofill.seq_version over the mapped data units) satisfies Model/Stream.v's version rule, and
+   its pictures are codable under that label ... *)
+Theorem C03_autofilled_version_ok :
+  forall (d : AF.defaults) (sh : AF.seqhdr) (h0 : hdr), h_pvmin h0 = hdr_pvmin d sh ->
+  forall us : list dunit, first_hdr us = Some h0 -> Forall unit_nz us -> Forall (same_profile h0) us ->
+  h_major h0 = autofilled_version d sh (map u_kind us) ->
+  version_ok us = true /\ Forall (tp_codable (h_major h0)) us.
+Proof. exact autofilled_version_ok. Qed.
+
+(* ... and no smaller label satisfies it *)
+Theorem C03_autofilled_version_least :
+  forall (d : AF.defaults) (sh : AF.seqhdr) (h0 : hdr), h_pvmin h0 = hdr_pvmin d sh ->
+  forall us : list dunit, first_hdr us = Some h0 -> Forall unit_nz us -> Forall (same_profile h0) us ->
+  Forall (tp_codable (h_major h0)) us -> version_ok us = true ->
+  autofilled_version d sh (map u_kind us) <= h_major h0.
+Proof. exact autofilled_version_least. Qed.
+
+(* ---- 2. the ordering patterns via C18 -------------------------------------------------------
+   Model/Stream.v's abstract automata instantiated with the C18 Matcher model (Directed = repaired code):
+   state = Matcher, step = match_symbol on the parse-code name (sym_num: the eight names numbered in sorted
+   order), complete = is_complete.  For ANY pattern r using `$` only where nothing mandatory follows, the
+   automaton accepts a list of parse codes iff their names are in the language of r
+   (C18_accepts_iff_viable_prefix + C18_complete_iff_match). *)
+Theorem C03_pattern_automaton_iff_lang : forall (r : re) (syms : list symbol), eos_ok r = true ->
+  (automaton_accepts matcher mstep is_complete (new_matcher Directed r) syms = true <-> lang r (map sym_num syms)).
+Proof. exact matcher_automaton_accepts_iff_lang. Qed.
+
+(* the generic pattern: the AST is C18's parse of "sequence_header .* end_of_sequence"; the rule holds for
+   every data-unit list that starts with a sequence header and ends with an end of sequence; the automaton
+   satisfies the Section hypothesis of C01 / C03_structure_partial / C05 (sequence header first) *)
+Theorem C03_generic_pattern_parse : parse_regex generic_tokens = inr generic_re.
+Proof. exact generic_re_parse. Qed.
+
+Theorem C03_generic_pattern_ok : forall (u0 : dunit) (h0 : hdr) (mid : list dunit) (e : dunit),
+  u_kind u0 = KSeqHdr h0 -> u_kind e = KEos -> Mgeneric_ok (u0 :: mid ++ [e]) = true.
+Proof. exact generic_ok_ends. Qed.
+
+Theorem C03_generic_first_is_seqhdr : gen_first_is_seqhdr_b gstart_m mstep = true.
+Proof. exact generic_first_is_seqhdr. Qed.
+
+(* the level's pattern, for an ARBITRARY level table lvl_re: the rule is `the names match the pattern`;
+   and C01's second Section hypothesis holds for every level whose pattern lets a sequence start with a
+   sequence header *)
+Theorem C03_level_pattern_iff_lang : forall (lvl_re : Z -> re) (us : list dunit) (h0 : hdr),
+  first_hdr us = Some h0 -> eos_ok (lvl_re (h_level h0)) = true ->
+  (Mlevel_ok lvl_re us = true <-> lang (lvl_re (h_level h0)) (map sym_num (map u_symbol us))).
+Proof. exact level_ok_iff. Qed.
+
+Theorem C03_level_accepts_seqhdr : forall (lvl_re : Z -> re) (l : Z),
+  eos_ok (lvl_re l) = true -> (exists v, lang (lvl_re l) (8 :: v)) ->
+  lvl_accepts_seqhdr_b (lstart_m lvl_re) lstep_m l = true.
+Proof. exact level_accepts_seqhdr. Qed.
+
+(* ---- 3. the whole sequence ------------------------------------------------------------------
+   Model/IntegSeq.v make_sequence_kinds = encoder/sequence.py make_sequence followed by autofill, at
+   data-unit level:  the picture data units pics_kinds start ps (C03: one picture unit or first fragment +
+   frag_split; numbers (start + i) mod 2^32 = C07_picnum_all_auto for start = 0) -> their parse-code names ->
+   Model/MatchSeq.v make_seq (C19) with the generic pattern, the level's pattern lvl_re (h_level h), any
+   extra patterns, symbol_priority [padding_data; sequence_header], depth_limit 3 -> data_unit_makers
+   (weave: the header h for every "sequence_header", padding / auxiliary data / end of sequence units, pop(0)
+   of the picture units under the first one's parse-code name; KeyError / IndexError = None) -> every header's
+   major_version := C07's seq_version of the whole sequence -> fill_offsets (next = own length, 0 at the
+   end; previous = length of the previous unit) for ANY serialised lengths `lens` >= 13.
+
+   DISCHARGED: all ten rules of Model/Stream.v -- ends_ok (first header from the generic pattern), offsets_ok,
+   headers_identical, codes_allowed_in_profile, version_ok (C07 via C03_autofilled_version_ok), picnums_ok,
+   whole_frames, fragments_ok, level_pattern_ok and generic_pattern_ok (C19_sound + C18) -- and
+   units_valid, hence (C01_iff) the validator model with the Matcher automata ACCEPTS.
+   HYPOTHESES that remain:
+     - make_sequence_kinds ... = Some ks: the search returned (C19_terminates: fuel; Impossible =
+       IncompatibleLevelAndDataUnitError) and the makers knew every name;
+     - no end_of_sequence data unit before the last one (eos_only_last us).  DISCHARGED when the level's pattern
+       has the shape `<no end_of_sequence, no wildcard, no $> end_of_sequence` (ends_with_eos: levels 1-7 and
+       64-66 of the real table -- evaluated on the live table by the bridge run), because the names match it.
+       For level 0 (`.*`) it stays a hypothesis: `.` matches end_of_sequence, a caller's pattern such as
+       `sequence_header end_of_sequence .*` forces one, and C19 proves soundness of the search, not that it
+       avoids unforced insertions;
+     - eos_ok of the level's pattern and of the extra patterns (C18/C19's hypothesis on `$`);
+     - h_pvmin h = hdr_pvmin d sh (what h_pvmin MEANS), profile/level of the enums, lengths >= 13,
+       one codec configuration for all pictures (same profile, all fragmented or none), the
+       conditions of C03_structure_partial on the pictures (spec_ok, fields: even start and count).
+   Payload validity (coefficients, slice sizes) is not in this model: differential run only. *)
+Theorem C03_structure :
+  forall (lvl_re : Z -> re) (level_known : Z -> bool) (d : AF.defaults) (sh : AF.seqhdr)
+         (fuel : nat) (extra : list re) (h : hdr) (start : Z) (ps : list pic_spec) (hq whole : bool)
+         (ks : list kind) (lens : list Z),
+  let us := fill_offsets 0 (combine ks lens) in
+  eos_ok (lvl_re (h_level h)) = true -> all_ok extra ->
+  Forall spec_ok ps -> Forall (fun p => ps_hq p = hq /\ (ps_fsc p =? 0) = whole) ps ->
+  (h_pcm h = 1 -> start mod 2 = 0 /\ Z.of_nat (length ps) mod 2 = 0) ->
+  Forall (fun p => h_profile h = if ps_hq p then 3 else 0) ps ->
+  h_pvmin h = hdr_pvmin d sh ->
+  make_sequence_kinds fuel lvl_re extra d sh h (pics_kinds start ps) = Some ks -> length lens = length ks ->
+  Forall (fun l => 13 <= l) lens -> profile_known (h_profile h) = true -> level_known (h_level h) = true ->
+  (ends_with_eos (lvl_re (h_level h)) = true \/ eos_only_last us = true) ->
+  map u_kind us = ks /\ units_valid level_known us = true /\
+  ends_ok us = true /\ offsets_ok us = true /\ headers_identical us = true /\ codes_allowed_in_profile us = true /\
+  version_ok us = true /\ picnums_ok us = true /\ whole_frames us = true /\ fragments_ok us = true /\
+  Mlevel_ok lvl_re us = true /\ Mgeneric_ok us = true /\
+  Mrun lvl_re level_known us = Accept.
+Proof. exact make_sequence_accepted. Qed.
+
+(* non-vacuity: level 66's pattern `(sequence_header high_quality_picture)* end_of_sequence` (any other
+   level: `.*`), default-table of C07's example, header without presets.
+   (1) two HQ pictures numbered 2^32-1, 0 at level 66: make_sequence interleaves headers, version 2;
+   (2) a fragmented HQ picture (3x2 slices, 4 per fragment) at level 0: version 3;
+   (3) an LD picture with the extra pattern `(. padding_data)* end_of_sequence`: padding inserted, version 1.
+   Every hypothesis of C03_structure holds and the validator model accepts. *)
+Definition C03_ex_lvl (l : Z) : re := if l =? 66 then Cat (Star (Cat (Sym 8) (Sym 3))) (Sym 2) else Star Any.
+Definition C03_ex_d : AF.defaults :=
+  AF.mk_defaults 16 None 3 (false, 3) (false, 1) (false, 3) (false, 0) (false, 0) (false, 0) 0 4 false 4 false 0 0 0.
+Definition C03_ex_sh : AF.seqhdr :=
+  let p := AF.mk_preset None None in AF.mk_seqhdr AF.Auto None p p p p p p.
+Definition C03_ex_run (extra : list re) (h : hdr) (start : Z) (ps : list pic_spec) (lens : list Z) :=
+  option_map (fun us => (map (fun u => sym_num (u_symbol u)) us, option_map h_major (first_hdr us),
+                         eos_only_last us, Mrun C03_ex_lvl (fun _ => true) us))
+             (make_sequence_units 100 C03_ex_lvl extra C03_ex_d C03_ex_sh h (pics_kinds start ps) lens).
+Example C03_example_make_sequence :
+  let tp := mkTp 4 4 0 3 2 in
+  hdr_pvmin C03_ex_d C03_ex_sh = 1 /\
+  C03_ex_run [] (mkHdr 1 0 3 66 0 1) 4294967295 [mkPicSpec true tp 0; mkPicSpec true tp 0] [20; 100; 20; 100; 13]
+    = Some ([8; 3; 8; 3; 2], Some 2, true, Accept) /\
+  C03_ex_run [] (mkHdr 1 0 3 0 0 1) 7 [mkPicSpec true tp 4] [20; 30; 60; 40; 13]
+    = Some ([8; 4; 4; 4; 2], Some 3, true, Accept) /\
+  C03_ex_run [Cat (Star (Cat Any (Sym 7))) (Sym 2)] (mkHdr 1 0 0 0 0 1) 7 [mkPicSpec false tp 0] [20; 13; 30; 13; 13]
+    = Some ([8; 7; 5; 7; 2], Some 1, true, Accept).
+Proof. vm_compute. repeat split; reflexivity. Qed.
+
+(* the comparison function of the correspondence run (Model/IntegSeqCorr.v bridge_code: real data units =
+   make_sequence_units on the same inputs, decidable hypotheses of C03_structure, the validator's logs) on a
+   literal case of the kind tools/harness/C03.py writes: level 64 `(sequence_header low_delay_picture)* end_of_sequence`,
+   one LD picture, frame-rate preset 16 (logged bound 3) *)
+From VC2 Require Import Model.IntegSeqCorr.
+Example C03_example_bridge_case :
+  bridge_code (mkBCase [UL 0 1 3 0 64 0 3 23 23 0; UL 1 0 5 4 4 0 131073 40 40 23; UL 6 0 0 0 0 0 0 13 0 40]
+                       [TLP; TStr 8; TStr 5; TRP; TMod MStar; TStr 2] []
+                       (BD 16 None 3 (false, 3) (false, 1) (false, 3) (false, 0) (false, 0) (false, 0) 0 4 false 4 false 0 0 0)
+                       (BH BA None (BP (Some true) (Some 16)) (BP (Some false) None) (BP (Some false) None) (BP None None) (BP None None) (BP None None))
+                       (0, 64, 0, 3) 5 [(0, 4, 4, 0, 2, 1, 0)] 3 200) = 0.
+Proof. vm_compute. reflexivity. Qed.
+
+(* the bridge is not vacuous either: a fragmented HQ picture: autofill says 3, Model/Stream.v's version rule
+   accepts the label 3 and rejects 2 (fragments need 3); an HQ picture: autofill says 2, label 3 is rejected
+   (not minimal) *)
+Example C03_example_version :
+  let tp := mkTp 4 4 0 3 2 in
+  let us v := [mkUnit (KSeqHdr (mkHdr 1 v 3 0 0 1)) 20 20 0; mkUnit (KFragFirst true 0 tp) 30 30 20;
+               mkUnit (KFragData true 0 6 0 0) 100 100 30; mkUnit KEos 13 0 100] in
+  let vs v := [mkUnit (KSeqHdr (mkHdr 1 v 3 0 0 1)) 20 20 0; mkUnit (KPic true 0 tp) 100 100 20; mkUnit KEos 13 0 100] in
+  autofilled_version C03_ex_d C03_ex_sh (map u_kind (us 0)) = 3 /\ version_ok (us 3) = true /\ version_ok (us 2) = false /\
+  autofilled_version C03_ex_d C03_ex_sh (map u_kind (vs 0)) = 2 /\ version_ok (vs 2) = true /\ version_ok (vs 3) = false.
+Proof. vm_compute. repeat split; reflexivity. Qed.
+
+(* the shape that discharges eos_only_last: level 66's pattern has it, level 0's `.*` does not *)
+Example C03_example_level_shape : ends_with_eos (C03_ex_lvl 66) = true /\ ends_with_eos (C03_ex_lvl 0) = false.
+Proof. vm_compute. split; reflexivity. Qed.
